@@ -52,7 +52,13 @@ def run(ctx):
     ctx.rule += (" fp cases: nb 2..3, both stencils, four variants, 1..3 applications: slice b vs the single-bunch run "
                  "(bit-exact on the implementation), tables equal, and vs the model. Non-trivial: b>=1, non-zero data, variant != none."
                  " rf cases: RF (linear, sinusoidal) and drift offset vectors of nb 2..3 maps block by block, multi-bunch RF+drift iteration vs the single-bunch run of every slice (bit-exact).")
-    coq = vp_coq.full_check("C08", ctx, fams=("kick", "fp", "rf"))
+    ctx.rule += (" run cases (family run): nb 2..4 bunches, 1..5 full steps in main()'s order at API level (WakePotentialMap on a real ElectricField "
+                 "with bucket patterns incl. gaps | Identity; RF kick; drift; Fokker-Planck both stencils | Identity): offset vector after update() = "
+                 "wake potential; slice b after every step vs the single-bunch run of that slice kicked by bunch b's own potential (bit-exact); identical "
+                 "bunches; empty bucket stays empty and is inert; extracted run model vs implementation (tolerance 16*2^-24 per map times the tables' gains). "
+                 "identity map: copy per bunch, model exact. program level: inovesa binary, -G 0, 2 or 4 equal bunches with and without empty buckets vs the "
+                 "single-bunch run: per-bunch /BunchLength /EnergySpread /BunchPosition /EnergyAverage equal and /PhaseSpace = share * single, bit for bit.")
+    coq = vp_coq.full_check("C08", ctx, fams=("kick", "fp", "rf", "run"))
     nk = 60 if ctx.quick() else 1500
     cases = kc.gen_cases(ctx, nk, nbs=(2, 3), sizes=list(range(4, 25)))
     singles = []
@@ -83,9 +89,16 @@ def run(ctx):
     # RF kick and drift constructors: every bunch's block of the offset vector, multi-bunch iteration vs single-bunch
     import rf_cases
     dis += rf_cases.c08_rf_subcheck(ctx)
+    # run level (family run): composed steps with the wake kick, identity map, program level
+    import run_cases, ident_cases
+    dis += run_cases.c08_run_subcheck(ctx)
+    dis += ident_cases.ident_subcheck(ctx, "C08")
+    dis += run_cases.c08_program_subcheck(ctx)
     ctx.extra["correspondence_disagreements"] = len(dis)
-    ctx.assumptions += ["kick maps (KickMap::apply both directions), the Fokker-Planck map and the RF/drift constructors' per-bunch offset blocks; "
-                        "the induction over steps of a whole run is C12/C14's driver model; program-level two-bunch runs are in the thorough tier of C03"]
+    ctx.assumptions += ["kick maps (KickMap::apply both directions), the Fokker-Planck map, the RF/drift constructors' per-bunch offset blocks, "
+                        "WakePotentialMap::update's copy and the run of any number of steps in main()'s order (exact-arithmetic model; wake potentials are "
+                        "inputs of the run model: what the field computes for a bunch is C06); renormalisation between steps is C09's per-bunch statement "
+                        "and is exercised here at program level only"]
     conclude(ctx, coq, dis)
 
 
